@@ -220,6 +220,69 @@ def levelCommand (level : Int) (isMax : Bool) (parsed : Option Nat) (inGame from
     else if !inGame || !fromOpponent then (li, .future)
     else (li, .now)
 
+/-! #### `HandleTell` / `handleCommand` (ASCII messages) -/
+
+/-- `strings.SplitN(msg, " ", 2)`: always at least one element, so `bits[0]` never panics -/
+def splitCmd (msg : String) : String × Option String :=
+  let cs := msg.toList
+  match cs.span (· ≠ ' ') with
+  | (a, []) => (String.ofList a, none)
+  | (a, _ :: b) => (String.ofList a, some (String.ofList b))
+
+/-- `strconv.Atoi` with its error: optional sign, decimal digits, within `int` (64 bit) -/
+def atoiOpt (s : String) : Option Int :=
+  let cs := s.toList
+  let (neg, ds) : Bool × List Char := match cs with
+    | '-' :: r => (true, r)
+    | '+' :: r => (false, r)
+    | r => (false, r)
+  if ds.isEmpty || !ds.all Char.isDigit then none else
+  let n : Nat := ds.foldl (fun a c => a * 10 + (c.toNat - 48)) 0
+  let v : Int := if neg then -(n : Int) else (n : Int)
+  if v < -9223372036854775808 ∨ v > 9223372036854775807 then none else some v
+
+/-- `strconv.ParseUint(s, 10, 64)` -/
+def parseUintOpt (s : String) : Option Nat :=
+  let cs := s.toList
+  if cs.isEmpty || !cs.all Char.isDigit then none else
+  let n := cs.foldl (fun a c => a * 10 + (c.toNat - 48)) 0
+  if n < 2 ^ 64 then some n else none
+
+/-- what a chat command does -/
+inductive TellOut where
+  | level (r : LevelReply)   -- a reply of the level command (`.bad`: nothing is sent)
+  | help                     -- "[user@level N]: docURL"
+  | seek (size : Int)        -- `Seek size time increment` (no game running)
+  | sizeSet (size : Int)     -- `cmd.size` changed while a game is running: nothing is sent
+  | nothing
+deriving Repr, DecidableEq, Inhabited
+
+/-- `(*Friendly).HandleTell(who, msg)` → `handleCommand(who, cmd, arg)`: the new level and the effect -/
+def friendlyTell (level : Int) (inGame fromOpponent : Bool) (msg : String) : Int × TellOut :=
+  let (cmd, arg?) := splitCmd msg
+  let arg := arg?.getD ""
+  let c := cmd.toLower
+  if c == "level" then
+    let (l, r) := levelCommand level (arg == "max") (parseUintOpt arg) inGame fromOpponent
+    (l, .level r)
+  else if c == "size" then
+    match atoiOpt arg with
+    | none => (level, .nothing)
+    | some sz =>
+      if sz ≥ 3 ∧ sz ≤ 8 then (level, if inGame then .sizeSet sz else .seek sz) else (level, .nothing)
+  else if c == "help" then (level, .help)
+  else (level, .nothing)
+
+/-- `(*Taktician).HandleTell`: only `size`, and only 4..6 -/
+def takticianTell (inGame : Bool) (msg : String) : TellOut :=
+  let (cmd, arg?) := splitCmd msg
+  let arg := arg?.getD ""
+  if cmd.toLower == "size" then
+    match atoiOpt arg with
+    | none => .nothing
+    | some sz => if sz ≥ 4 ∧ sz ≤ 6 then (if inGame then .sizeSet sz else .seek sz) else .nothing
+  else .nothing
+
 /-! ### `Taktician` -/
 
 structure TakticianCfg where
